@@ -1022,11 +1022,64 @@ func colourDFS(c *core.Ctx, p *load.Prog, ig *packages.Package, fc *ast.FuncDecl
 		})
 	}
 	cycleTest, guardedDescent := false, false
-	for _, st := range rng.Body.List {
+	// every value the state type has a constant for
+	allStates := map[string]bool{}
+	if mt, ok := state.Type().Underlying().(*types.Map); ok {
+		if nt, ok := mt.Elem().(*types.Named); ok && nt.Obj().Pkg() != nil {
+			sc := nt.Obj().Pkg().Scope()
+			for _, nm := range sc.Names() {
+				if k, ok := sc.Lookup(nm).(*types.Const); ok && types.Identical(k.Type(), nt) {
+					allStates[k.Val().ExactString()] = true
+				}
+			}
+		}
+	}
+	for si, st := range rng.Body.List {
 		switch x := st.(type) {
 		case *ast.SwitchStmt:
 			if x.Tag == nil || !isStateOfTo(x.Tag) {
 				continue
+			}
+			// a switch all of whose clauses for the seen states leave the
+			// iteration, followed by the descent: only unseen nodes get there
+			exits := map[string]bool{}
+			hasDefault := false
+			for _, cc := range x.Body.List {
+				cl := cc.(*ast.CaseClause)
+				if cl.List == nil {
+					hasDefault = true
+				}
+				leaves := false
+				if n := len(cl.Body); n > 0 {
+					switch l := cl.Body[n-1].(type) {
+					case *ast.ReturnStmt:
+						leaves = true
+					case *ast.BranchStmt:
+						leaves = l.Tok == token.CONTINUE
+					}
+				}
+				for _, e := range cl.List {
+					if v, ok := constOf(e); ok && leaves {
+						exits[v] = true
+					}
+				}
+			}
+			if !hasDefault && len(allStates) >= 2 {
+				covered := true
+				for v := range allStates {
+					if v != "0" && !exits[v] {
+						covered = false
+					}
+				}
+				after := false
+				for _, later := range rng.Body.List[si+1:] {
+					if recurses(later) {
+						after = true
+					}
+				}
+				if covered && after && !exits["0"] {
+					guardedDescent = true
+				}
 			}
 			for _, cc := range x.Body.List {
 				cl := cc.(*ast.CaseClause)
